@@ -12,6 +12,7 @@ import (
 	"encoding/json"
 	"fmt"
 	"net"
+	"sort"
 	"sync"
 	"sync/atomic"
 	"syscall"
@@ -319,7 +320,18 @@ func init() {
 					cls[i] = []bool{sb.closed[0], sb.closed[1]}
 					got[i] = []int{sb.got[0], sb.got[1]}
 				}
-				o := map[string]interface{}{"cl": cls, "got": got, "inv": false, "fin": false, "panic": ""}
+				seqs, dl, sl, shut := cl.VerifPeek()
+				regs, ncb := []int{}, 0
+				for _, q := range seqs {
+					if q >= 2 && int(q) < 2+len(subs) {
+						regs = append(regs, int(q)-1)
+					} else {
+						ncb++
+					}
+				}
+				sort.Ints(regs)
+				x := map[string]interface{}{"subs": regs, "ncb": ncb, "dl": dl, "sl": sl, "shut": shut}
+				o := map[string]interface{}{"cl": cls, "got": got, "inv": false, "fin": false, "panic": "", "x": x}
 				if t > 1 && t < len(inv) {
 					o["inv"], o["fin"] = inv[t], fin[t]
 					inv[t], fin[t] = false, false
